@@ -65,6 +65,7 @@ int main(int argc, char **argv) {
     unsigned rounds = unsigned(atoi(argv[2]));
     unsigned long jobs_total = 0, overlapping = 0, mismatches = 0, cb_after = 0, nontrivial_rounds = 0, rounds_done = 0, fired_jobs = 0;
     std::string first_bad, sample;
+    unsigned long ctor_rounds[3] = {0, 0, 0};
     for (int ai = 3; ai < argc; ++ai) {
         std::vector<uint8_t> font;
         { FILE *f = fopen(argv[ai], "rb"); if (!f) { perror(argv[ai]); return 3; } uint8_t b[65536]; size_t n; while ((n = fread(b, 1, sizeof b, f)) > 0) font.insert(font.end(), b, b + n); fclose(f); }
@@ -111,9 +112,15 @@ int main(int argc, char **argv) {
             // the shared COLD face: nothing touches it before the threads start
             Exact fbuf(font.data(), font.size());
             FaceBox shared;
-            make_face(shared, fbuf.p, fbuf.n, 0, gr_face_preloadAll);
+            // constructor of the shared face: 0 gr_make_face_with_ops, 8 the deprecated gr_make_face_with_seg_cache_and_ops (one round in
+            // four; every constructor that takes gr_face_preloadAll has to deliver a preloaded face — seed S7-C09 swapped two arguments of this one),
+            // 1 / 9 the file-face constructors (one round in eight: no callback ledger there, the race and equality clauses only)
+            const unsigned ck = r(8);
+            const int ctor = ck < 2 ? 8 : ck == 2 ? (r(2) ? 1 : 9) : 0;
+            make_face(shared, fbuf.p, fbuf.n, ctor, gr_face_preloadAll);
             if (!shared.face) break;
-            shared.mf->frozen = true;
+            ++ctor_rounds[ctor == 0 ? 0 : ctor == 8 ? 1 : 2];
+            if (shared.mf) shared.mf->frozen = true;
             gr_font *sfont = gr_make_font(14.0f, shared.face);
             pthread_barrier_t bar;
             pthread_barrier_init(&bar, nullptr, nthreads);
@@ -121,7 +128,7 @@ int main(int argc, char **argv) {
             for (unsigned t = 0; t < nthreads; ++t) { ws[t].face = shared.face; ws[t].font = sfont; ws[t].bar = &bar; pthread_create(&th[t], nullptr, thread_main, &ws[t]); }
             for (unsigned t = 0; t < nthreads; ++t) pthread_join(th[t], nullptr);
             pthread_barrier_destroy(&bar);
-            cb_after += shared.mf->gets_after_freeze;
+            if (shared.mf) cb_after += shared.mf->gets_after_freeze;
             // sequential reference on the other face
             bool round_overlap = false, round_fired = false;
             for (unsigned t = 0; t < nthreads; ++t) for (Job &j : ws[t].jobs) {
@@ -140,7 +147,7 @@ int main(int argc, char **argv) {
         }
         gr_font_destroy(reffont);
     }
-    printf("{\"evaluations\":%lu,\"rounds\":%lu,\"nontrivial\":%lu,\"jobs_overlapping_in_time\":%lu,\"jobs_with_rules_fired\":%lu,\"dump_mismatches\":%lu,\"callbacks_after_construction\":%lu,\"first_mismatch\":%s,\"sample\":%s}\n",
-           jobs_total, rounds_done, nontrivial_rounds, overlapping, fired_jobs, mismatches, cb_after, first_bad.empty() ? "null" : first_bad.c_str(), sample.empty() ? "null" : sample.c_str());
+    printf("{\"evaluations\":%lu,\"rounds\":%lu,\"nontrivial\":%lu,\"jobs_overlapping_in_time\":%lu,\"jobs_with_rules_fired\":%lu,\"dump_mismatches\":%lu,\"callbacks_after_construction\":%lu,\"rounds_by_constructor\":{\"with_ops\":%lu,\"with_seg_cache_and_ops\":%lu,\"file\":%lu},\"first_mismatch\":%s,\"sample\":%s}\n",
+           jobs_total, rounds_done, nontrivial_rounds, overlapping, fired_jobs, mismatches, cb_after, ctor_rounds[0], ctor_rounds[1], ctor_rounds[2], first_bad.empty() ? "null" : first_bad.c_str(), sample.empty() ? "null" : sample.c_str());
     return 0;
 }
